@@ -16,10 +16,12 @@ LISTS = {
     'V3': f'usize, {V}<u8>, {A}<usize,8>, {V}<{A}<u16,4>>, u8',
     'M1': f'{F}<u16>, u32, {A}<usize,8>, {V}<{A}<u32,8>>',
     'M2': f'usize, {V}<u32>, {A}<u32,8>, {F}<u64>',   # mixed: span, aligned plain, then 8-byte objects of alignment 1 as the last parameter
+    'V5': f'u32, {V}<{A}<u64,8>>, u32',          # 4-byte count: run-time padding between the count and an over-aligned span, also when the span is empty
     'V4': f'usize, {V}<u8>, {A}<u32,8>',        # span whose length differences hide in the padding in front of an aligned field
     'N1': f'{F}<Tr>, Tr',
     'N2': f'{A}<usize,8>, {V}<Tr>, Tr',
     'N3': f'u32, {F}<Tr>, u16, Tr, u8',
+    'N4': f'usize, {V}<Tr>, usize, {V}<Tr>',      # two spans of non-trivial objects: the same total size splits differently
     'E1': 'u8, u8',
     'E2': f'u8, {A}<u32,4>',
     'E3': f'{F}<u8>, u16',
@@ -35,14 +37,14 @@ LISTS = {
     'S16': f'{F}<u16>',                          # one multi-byte field: byte order != numeric order
     'R1': f'u32, {F}<u32>',                     # one trivially swappable/assignable run of 4 + 4n bytes, n up to 15 (C11)
 }
-TWO_SPAN = {'F2', 'V3', 'M1', 'M2'}
+TWO_SPAN = {'F2', 'V3', 'M1', 'M2', 'N4'}
 TRIVIAL = ['P1', 'P2', 'F1', 'F2', 'V1', 'V2', 'V3', 'M1']
 NONTRIVIAL = ['N1', 'N2', 'N3']
 CORE = TRIVIAL + NONTRIVIAL
-HAS_VARY = {'V1', 'V2', 'V3', 'M1', 'N2', 'E4', 'G2'}
+HAS_VARY = {'V1', 'V2', 'V3', 'M1', 'N2', 'E4', 'G2', 'V5', 'N4'}
 
 # ---- layout family (Mode A) -----------------------------------------------------------------------------------------
-SIZE_T = {1: 'u8', 2: 'u16', 4: 'u32', 12: 'Bs<12>', 16: 'Bs<16>'}
+SIZE_T = {1: 'u8', 2: 'u16', 4: 'u32', 8: 'u64', 12: 'Bs<12>', 16: 'Bs<16>'}
 
 
 def family():
@@ -75,7 +77,7 @@ def family_list(combo, cnt):
 
 
 def family_name(combo, cnt):
-    return ''.join(f'{k}{s}a{a}' for k, s, a in combo) + ('c8' if cnt != 'usize' else '')
+    return ''.join(f'{k}{s}a{a}' for k, s, a in combo) + ({'usize': '', 'u32': 'c4'}.get(cnt, 'c8'))
 
 
 def layout_ob(prop, name, lst, nelem=2, maxspan=65535, reserved=0, nvary=None, cfg=None):
@@ -138,6 +140,8 @@ def attribute(ob, viol):
     if k in UB_KINDS:
         out.add(ob.get('owner') or OWNER.get(ob['harness'], ob.get('prop')))
         out.add(ob.get('prop'))     # undefined behaviour inside an operation the property chose to drive voids its claim
+    if k in ('LEDGER', 'FOREIGN-ALLOC'):
+        out.add(ob.get('prop'))     # a deallocate that breaks the allocator's requirements (wrong size / base / instance) is undefined behaviour too
     return out
 
 
@@ -218,7 +222,7 @@ def attribute_copy(aid):
     if aid in (801, 802): return 'C08'
     if aid % 100 == 99: return 'C05'
     if 810 <= aid <= 813: return 'C05'
-    if aid == 890: return 'C16'
+    if aid in (890, 891): return 'C16'
     if aid == 897: return 'C06'
     loc = aid % 100
     if loc in (7, 8, 95): return 'C02'
@@ -298,6 +302,21 @@ def pool_layout(prop, tier, seed, reserved=False):
     for (sa, aa) in ([(4, 1), (2, 1)] if tier == 'quick' else [(4, 1), (2, 1), (1, 1), (4, 2)]):
         for (sp, ap) in [(4, 8), (4, 16)]:
             tails.append(((('V', sa, aa), ('P', sp, ap), ('F', 16, 1)), 'usize'))
+    # packed 8-byte objects: [AlignAs 8]? [u32]? [8-byte objects of alignment 1 or 8 as plain / fixed / varying with a 4- or 8-byte count]
+    # [AlignAs 8 | u32]? - parameters that start or end on a 4-aligned offset inside an 8-aligned bracket, where the padding in front
+    # of the next aligned field (or the next element) is neither always 0 nor always needed
+    U32, P8, A8 = ('P', 4, 1), ('P', 8, 1), ('P', 8, 8)
+    packed = [((A8, ('V', 8, 1)), 'u32'), ((('V', 8, 1), A8), 'u32'), ((U32, P8, A8), 'usize'), ((A8, ('V', 8, 8), U32, P8), 'usize'),
+              ((('V', 8, 8), U32), 'u32'), ((U32, ('F', 8, 1), A8), 'usize')]
+    if tier == 'thorough':
+        for pre in ((), (A8,)):
+            for lead in ((), (U32,)):
+                for mid, cnt in [(P8, 'usize'), (('F', 8, 1), 'usize'), (('V', 8, 1), 'u32'), (('V', 8, 1), 'usize'), (('V', 8, 8), 'u32'), (('F', 8, 8), 'usize')]:
+                    for post in ((), (A8,), (U32,), (U32, P8)):
+                        c = (pre + lead + (mid,) + post, cnt)
+                        if len(c[0]) >= 2 and c not in packed: packed.append(c)
+    for combo, cnt in packed:
+        obs.append(layout_ob(prop, family_name(combo, cnt), family_list(combo, cnt), nelem=(3 if not any(k == 'V' for k, _, _ in combo) else 2), reserved=int(reserved)))
     for combo, cnt in (tails[:8] + [t for t in tails if len(t[0]) == 3] if tier == 'quick' else tails):
         obs.append(layout_ob(prop, family_name(combo, cnt), family_list(combo, cnt), nelem=(3 if combo[1][0] == 'F' else 2), reserved=int(reserved)))
     for combo, cnt in (shapes[:14] if tier == 'quick' else shapes):
@@ -317,7 +336,7 @@ def pool_layout(prop, tier, seed, reserved=False):
 
 
 # ---- per property plans ---------------------------------------------------------------------------------------------
-def c01(tier, seed): return pool_seq('C01', CORE + (['M2', 'V4'] if tier == 'thorough' else []), tier)
+def c01(tier, seed): return pool_seq('C01', CORE + (['M2', 'V4', 'V5'] if tier == 'thorough' else []), tier)
 
 
 def c02(tier, seed):
@@ -336,7 +355,7 @@ def c02(tier, seed):
 
 def c03(tier, seed):
     obs = pool_layout('C03', tier, seed)
-    al = ['P2', 'F2', 'V2', 'V3', 'M1', 'M2']
+    al = ['P2', 'F2', 'V2', 'V3', 'M1', 'M2', 'V5']
     obs += pool_seq('C03', al, tier, ops_filter=['OP_ERASE', 'OP_RESERVE', 'OP_ERASE_RANGE'] if tier == 'quick' else None)
     obs += pool_copy('C03', al if tier == 'thorough' else ['V2', 'F2', 'M1'], tier, akinds=('st-ne',), ops=['OP_COPY_CTOR', 'OP_COPY_ASSIGN', 'OP_MOVE_ASSIGN', 'OP_SWAP'])
     return obs
@@ -344,7 +363,7 @@ def c03(tier, seed):
 
 def c04(tier, seed):
     obs = pool_layout('C04', tier, seed)
-    obs += pool_seq('C04', ['V1', 'V3', 'M1', 'M2', 'F2'] if tier == 'quick' else CORE + ['M2'], tier, ops_filter=['OP_ERASE', 'OP_RESERVE'] if tier == 'quick' else None)
+    obs += pool_seq('C04', ['V1', 'V3', 'M1', 'M2', 'F2', 'V5'] if tier == 'quick' else CORE + ['M2', 'V5'], tier, ops_filter=['OP_ERASE', 'OP_RESERVE'] if tier == 'quick' else None)
     obs += pool_copy('C04', ['F1', 'F2', 'M1'] if tier == 'quick' else ['F1', 'F2', 'M1', 'N1', 'N3', 'V1'], tier, akinds=('ae', 'st-ne'), ops=['OP_SWAP', 'OP_MOVE_ASSIGN', 'OP_COPY_ASSIGN'])
     for o in obs:
         if o['harness'] in ('h_seq.cpp', 'h_copy.cpp'): o['also'] = {'C01': 'C04', 'C09': 'C04'}   # span counts / get_fixed_size / field placement are C04's clauses
@@ -362,7 +381,7 @@ def c05(tier, seed):
 
 def c06(tier, seed):
     obs = pool_seq('C06', NONTRIVIAL, tier)
-    obs += pool_elem('C06', NONTRIVIAL, akinds=('ae', 'st-ne', 'prop-ne'))
+    obs += pool_elem('C06', NONTRIVIAL + ['N4'], akinds=('ae', 'st-ne', 'prop-ne'))
     obs += [ref_ob('C06', lid, part) for lid in NONTRIVIAL for part in (2, 4)]
     obs += pool_copy('C06', NONTRIVIAL, tier, akinds=('ae', 'st-ne') if tier == 'quick' else tuple(ALLOC_KINDS))
     return obs
@@ -373,6 +392,8 @@ def c07(tier, seed):
     obs = []
     for ak in (('ae', 'st-ne', 'prop-ne') if tier == 'quick' else tuple(ALLOC_KINDS)):
         obs += pool_copy('C07', lists, tier, akinds=(ak,))
+    # select_on_container_copy_construction returning another instance: every block of the copy (storage and address table) comes from it
+    obs += [copy_ob('C07', lid, 'OP_COPY_CTOR', akind='soccc-ne', aflags='AF_SOCCC', eq=0) for lid in (['V1', 'N2'] if tier == 'quick' else lists)]
     obs += pool_seq('C07', lists, tier, aflags='0')
     obs += pool_elem('C07', ['V1', 'N2'] if tier == 'quick' else ['F1', 'V1', 'M1', 'N1', 'N2'])
     return obs
@@ -398,7 +419,7 @@ def c08(tier, seed):
         obs.append(copy_ob('C08', lid, 'OP_COPY_ASSIGN', akind='ae'))
         obs.append(copy_ob('C08', lid, 'OP_MOVE_ASSIGN', akind='ae'))
     # elements: construction / assignment / swap under every propagation combination
-    for lid in (['V1', 'N2'] if tier == 'quick' else ['F1', 'V1', 'M1', 'N1', 'N2']):
+    for lid in (['V1', 'N2', 'F1'] if tier == 'quick' else ['F1', 'V1', 'M1', 'N1', 'N2', 'P2']):
         for nm, fl in combos:
             if 'o1' in nm: continue
             for op in ELEM_OPS:
@@ -408,7 +429,12 @@ def c08(tier, seed):
 
 
 def c09(tier, seed):
-    return pool_copy('C09', CORE, tier, akinds=('ae', 'st-ne', 'prop-ne') if tier == 'quick' else tuple(ALLOC_KINDS))
+    obs = pool_copy('C09', CORE, tier, akinds=('ae', 'st-ne', 'prop-ne') if tier == 'quick' else tuple(ALLOC_KINDS))
+    for o in obs:
+        # swap exchanges the complete contents: memory_consumption() and the recorded block size belong to them (assertions 810-813
+        # are C05's footprint clause everywhere else)
+        if '-DOP=OP_SWAP' in o['defines']: o['also'] = {'C05': 'C09'}
+    return obs
 
 
 def c10(tier, seed):
@@ -430,6 +456,12 @@ def c10(tier, seed):
 def c16(tier, seed):
     obs = pool_seq('C16', CORE if tier == 'thorough' else ['P2', 'F1', 'V1', 'V3', 'M1', 'N1', 'N2'], tier)
     cp = pool_copy('C16', ['F1', 'V1', 'N2'] if tier == 'quick' else CORE, tier, akinds=('ae', 'prop-ne'), ops=['OP_SWAP', 'OP_MOVE_CTOR', 'OP_MOVE_ASSIGN', 'OP_SELF'])
+    # stateful allocators without propagation: move construction takes the allocator along (nothing to compare), move assignment between
+    # equal instances transfers ownership
+    cp += pool_copy('C16', ['F1', 'V1', 'N2'] if tier == 'quick' else CORE, tier, akinds=('st-ne',), ops=['OP_MOVE_CTOR'])
+    cp += pool_copy('C16', ['F1', 'V1', 'N2'] if tier == 'quick' else CORE, tier, akinds=('st-eq',), ops=['OP_MOVE_ASSIGN', 'OP_SWAP'])
+    # propagate_on_container_swap alone: swap exchanges the allocators together with the blocks, nothing else does
+    cp += [copy_ob('C16', lid, 'OP_SWAP', akind='pocs-ne', aflags='AF_POCS', eq=0) for lid in (['F1', 'V1', 'N2'] if tier == 'quick' else CORE)]
     for o in cp: o['also'] = {'C09': 'C16'}     # "exchange ownership": the contents after swap / move are part of C16's claim
     return obs + cp
 
@@ -471,7 +503,7 @@ def pool_elem(prop, lists, akinds=('ae', 'st-ne', 'prop-ne')):
 
 
 def c12(tier, seed):
-    return pool_elem('C12', CORE + ['V4'], akinds=('ae', 'st-ne', 'prop-ne') if tier == 'quick' else tuple(ALLOC_KINDS))
+    return pool_elem('C12', CORE + ['V4', 'N4'], akinds=('ae', 'st-ne', 'prop-ne') if tier == 'quick' else tuple(ALLOC_KINDS))
 
 
 def cmp_ob(prop, lid, part, domain=0, smax=None, kv=2):
@@ -573,8 +605,9 @@ def c17(tier, seed):
 def c18(tier, seed):
     obs = []
     for lid in CORE:
-        d = [f'-DLIST={LISTS[lid]}'] + (['-DSMAX=1'] if lid in TWO_SPAN else [])
-        obs.append(dict(prop='C18', name=f"empty/{lid}", harness='h_empty.cpp', defines=d, entry='h_entry', cfg=dict(slack='min', budget_s=900), list=lid))
+        for lo in (0, 2, 4, 6):      # the eight follow-up operations, two per obligation
+            d = [f'-DLIST={LISTS[lid]}', f'-DWHAT_LO={lo}', f'-DWHAT_HI={lo + 2}'] + (['-DSMAX=1'] if lid in TWO_SPAN else [])
+            obs.append(dict(prop='C18', name=f"empty/{lid}/w{lo}", harness='h_empty.cpp', defines=d, entry='h_entry', cfg=dict(slack='min', budget_s=900), list=lid))
     obs += pool_seq('C18', ['P1', 'F1', 'V1', 'V3', 'N1', 'N2'] if tier == 'quick' else CORE, tier, ops_filter=['OP_CLEAR', 'OP_ERASE_RANGE', 'OP_POP', 'OP_ERASE'])
     obs += [cmp_ob('C18', lid, 2, smax=1) for lid in (['E1', 'G2'] if tier == 'quick' else ['E1', 'E4', 'G1', 'G2', 'V1'])]
     return obs
@@ -590,24 +623,29 @@ def c19(tier, seed):
     for lid in (['V1', 'F1', 'N2'] if tier == 'quick' else CORE):
         d = [f'-DLIST={LISTS[lid]}', '-DK0=1', '-DWITH_ELEM=0', '-DAFLAGS=AF_SOCCC'] + (['-DSMAX=1'] if lid in TWO_SPAN else [])
         obs.append(dict(prop='C19', name=f"const/{lid}/vec-soccc", harness='h_const.cpp', defines=d, entry='h_entry', cfg=dict(slack='min', budget_s=900), list=lid))
+    # fault schedule: the copy constructor of the k-th stored object throws while the shared vector is being copied / an element is
+    # constructed from one of its references (-fexceptions); the clean-up of the copier must not write to the shared vector
+    for lid in NONTRIVIAL:
+        d = [f'-DLIST={LISTS[lid]}', '-DK0=2', '-DWITH_ELEM=0', '-DTR_THROWS']
+        obs.append(dict(prop='C19', name=f"const/{lid}/throwing-copy", harness='h_const.cpp', defines=d, entry='h_entry', exceptions=True, cfg=dict(slack='min', budget_s=900), list=lid))
     return obs
 
 
 EMPLACE_PAIRS = {13: 'Ms->Tn (converting move constructor not noexcept)', 1: 'u32->u32', 2: 'i32->u32', 3: 'u8->bool', 4: 'bool->u8', 5: 'ToColor->enum', 6: 'i32->float', 7: 'u64->double', 8: 'i32->W(int)',
-                 9: 'Ms->Tm (move counting)', 10: 'u16->i32', 11: 'i32->u8', 12: 'float->float'}
+                 9: 'Ms->Tm (move counting)', 10: 'u16->i32', 11: 'i32->u8', 12: 'float->float', 14: 'Ms->Tt (trivially copyable target, move counting)'}
 EMPLACE_FORMS = {1: 'contiguous lvalue', 2: 'contiguous const lvalue', 3: 'contiguous rvalue', 4: 'C array', 5: 'std::array', 6: 'node range lvalue',
-                 7: 'node range rvalue', 8: 'generated range', 9: 'pointer', 10: 'move_iterator', 11: 'forward iterator', 12: 'generated iterator'}
+                 7: 'node range rvalue', 8: 'generated range', 9: 'pointer', 10: 'move_iterator', 11: 'forward iterator', 12: 'generated iterator',
+                 13: 'reverse_iterator over an array', 14: 'segmented random-access iterator (deque-like)'}
 
 
 def c15(tier, seed):
     obs = []
     for pair in EMPLACE_PAIRS:
         for form in EMPLACE_FORMS:
-            for varying in (0, 1):
+            for varying in (0, 1, 2):
                 if varying and form >= 9: continue      # a VaryingSize argument must be a range
-                if tier == 'quick' and varying and pair not in (1, 3, 8, 9, 13): continue
                 d = [f'-DPAIR={pair}', f'-DFORM={form}', f'-DVARYING={varying}']
-                obs.append(dict(prop='C15', name=f"emplace/p{pair}/f{form}/{'vary' if varying else 'fixed'}", harness='h_emplace.cpp', defines=d, entry='h_entry',
+                obs.append(dict(prop='C15', name=f"emplace/p{pair}/f{form}/{('fixed', 'vary', 'vary-aligned')[varying]}", harness='h_emplace.cpp', defines=d, entry='h_entry',
                                 cfg=dict(slack='min', budget_s=600)))
     return obs
 
